@@ -315,6 +315,17 @@ func c16PassThrough(r *verifReport, texts func(yield func([]byte))) (evals, nont
 			}
 			senders := []*verifPrincipal{mk("23"), mk("23w"), mk("2w"), mk("-")}
 			recvs := []*verifPrincipal{mk("23"), mk("3"), mk("-")}
+			{
+				// still in plaintext state, but with a key exchange under way (asked by a query / answered a D-H Commit)
+				asked := mk("23")
+				asked.Receive([]byte("?OTRv23?"))
+				answered := mk("3")
+				donor := mk("3")
+				if c := donor.Receive([]byte("?OTRv3?")); len(c.Out) > 0 {
+					answered.Receive(c.Out[0])
+				}
+				recvs = append(recvs, asked, answered)
+			}
 			for batch := range work {
 				for _, t := range batch {
 					if refContainsMarker(t) {
@@ -412,7 +423,7 @@ func init() {
 			return fs
 		},
 		Run: func(r *verifReport) {
-			r.Rule = "(a) negotiation: policy set of A × policy set of B × every offer form (11 literal queries incl. unknown versions and v1, the peer's own QueryMessage, whitespace tags for {2},{3},{2,3},{1},{} at start/middle/end and the peer's own tagged Send, direct v2/v3 DH-Commit, v1 key exchange), each run to quiescence on FIFO queues and compared with the reference model chosen = max(offered ∩ mine), session ⇔ chosen allowed by the peer; version field of every emitted message checked against the emitter's policy. (b) pass-through: every text of length ≤ 9 (quick: 8) over {a, space, tab, ?} and every concatenation of ≤ 3 atoms from {x, tag base, its first 15 bytes, its last 15 bytes, v2 tag, v3 tag, 8 spaces, ?OT}, minus texts containing an OTR marker, through Send (4 sender policies) and Receive (3 receiver policies). (c) a v3-only and a v2-only conversation in every state of an honest exchange (fresh, each handshake step in both roles, encrypted, after traffic, finished) × every input in the form of the forbidden version: each message kind and fragment of an exchange run under that version (whole and in its fragment format), the genuine next message of its own peer with the version field rewritten, and the genuine next message wrapped in 1-3 fragments of the forbidden version's fragment format (also followed by the genuine train): no plaintext, no OTR reply, no security/SMP event, conversation state hash unchanged, genuine traffic afterwards undisturbed. (d) every policy without a version (all 16 flag combinations) × {every message kind and fragment of a v2 and a v3 exchange, queries, error reports, truncated and marker-only messages, fragment-looking strings, tagged and plain text, the empty message}: Receive returns the message itself, nothing to send, no error, unchanged state; Send returns exactly the message"
+			r.Rule = "(a) negotiation: policy set of A × policy set of B × every offer form (11 literal queries incl. unknown versions and v1, the peer's own QueryMessage, whitespace tags for {2},{3},{2,3},{1},{} at start/middle/end and the peer's own tagged Send, direct v2/v3 DH-Commit, v1 key exchange), each run to quiescence on FIFO queues and compared with the reference model chosen = max(offered ∩ mine), session ⇔ chosen allowed by the peer; version field of every emitted message checked against the emitter's policy. (b) pass-through: every text of length ≤ 9 (quick: 8) over {a, space, tab, ?} and every concatenation of ≤ 3 atoms from {x, tag base, its first 15 bytes, its last 15 bytes, v2 tag, v3 tag, 8 spaces, ?OT}, minus texts containing an OTR marker, through Send (4 sender policies) and Receive (3 receiver policies, plus two receivers that are in plaintext state with a key exchange under way). (c) a v3-only and a v2-only conversation in every state of an honest exchange (fresh, each handshake step in both roles, encrypted, after traffic, finished) × every input in the form of the forbidden version: each message kind and fragment of an exchange run under that version (whole and in its fragment format), the genuine next message of its own peer with the version field rewritten, and the genuine next message wrapped in 1-3 fragments of the forbidden version's fragment format (also followed by the genuine train): no plaintext, no OTR reply, no security/SMP event, conversation state hash unchanged, genuine traffic afterwards undisturbed. (d) every policy without a version (all 16 flag combinations) × {every message kind and fragment of a v2 and a v3 exchange, queries, error reports, truncated and marker-only messages, fragment-looking strings, tagged and plain text, the empty message}: Receive returns the message itself, nothing to send, no error, unchanged state; Send returns exactly the message"
 			r.Assumptions = []string{"interleavings of the exchange are C07's job: FIFO round-robin delivery here", "a text 'contains an OTR marker' iff it contains \"?OTR\" or the complete 16-byte whitespace tag base"}
 			offers := c16Offers()
 			vers := []string{"2", "3", "23"}
